@@ -6,6 +6,7 @@ import xml.etree.ElementTree as ET
 base = json.load(open("/root/.vp/BASELINE.json"))
 env = dict(os.environ)
 env.pop("NOSTR_RELAY_VERIF", None)
+env["PYTHONDONTWRITEBYTECODE"] = "1"  # never leave .pyc files in the repository's working tree
 out = tempfile.mktemp(suffix=".xml")
 cmd = ["/venv/bin/python", "-m", "pytest", "-ra", "-q", "-p", "no:cacheprovider", "--timeout=900",
        "--continue-on-collection-errors", "--junitxml=" + out]
